@@ -158,7 +158,7 @@ def asset_term(a, spec, G='G'):
         return '(build_storage %s %s %s %s)' % (G, rg, sp, per)
     if k in ('Plant', 'CHPAsset'):
         import math
-        chp = k == 'CHPAsset'
+        chp = k == 'CHPAsset' and not a.get('_no_heat')
         nodes = a['nodes']
         heat = nodes[1] if chp else None
         fuel = nodes[-1] if len(nodes) > (2 if chp else 1) else None
